@@ -59,15 +59,18 @@ def case_json(c):
             'species': [[n, gs] for n, gs in c.species],
             'groups': [item_json(g) for g in c.groups],
             'histories': None if c.histories is None else [[i, hist_json(h)] for i, h in c.histories],
-            'singles': c.singles, 'tag': c.tag, 'consistent': c.consistent, 'newick': c.newick(), 'xml': c.xml()}
+            'singles': c.singles, 'tag': c.tag, 'consistent': c.consistent, 'newick': c.newick(), 'xml': c.xml(),
+            'species_resolve_mode': 'OMA' if getattr(c, 'oma', False) else None}
 
 
 def case_unjson(j):
     t = tree_unjson(j['tree']).set_paths()
-    return gen.Case(t, [(n, gs) for n, gs in j['species']], [item_unjson(g) for g in j['groups']],
-                    use_internal=j['use_internal'],
-                    histories=None if j.get('histories') is None else [(i, hist_unjson(h)) for i, h in j['histories']],
-                    singles=j.get('singles', []), tag=j.get('tag', 'replay'), consistent=j.get('consistent', True))
+    c = gen.Case(t, [(n, gs) for n, gs in j['species']], [item_unjson(g) for g in j['groups']],
+                 use_internal=j['use_internal'],
+                 histories=None if j.get('histories') is None else [(i, hist_unjson(h)) for i, h in j['histories']],
+                 singles=j.get('singles', []), tag=j.get('tag', 'replay'), consistent=j.get('consistent', True))
+    c.oma = j.get('species_resolve_mode') == 'OMA'
+    return c
 
 
 # ------------------------------------------------------------------ loading on both sides
